@@ -36,8 +36,8 @@ GEN = {
 GUARDS = [("hand", 1, "a late remote sub-task is listed after its younger siblings"),
           ("hand", 2, "of_type raises for unfinished actions"),
           ("hand", 3, "interleaved tasks with equal-typed ancestor and descendant exist")]
-PROGRAMS = {"quick": [("mixed", 500, 14), ("wide", 60, 45), ("blocks", 200, 12)],
-            "thorough": [("mixed", 9000, 16), ("wide", 800, 60), ("blocks", 3000, 14), ("deep", 1500, 24)]}
+PROGRAMS = {"quick": [("mixed", 500, 14), ("wide", 60, 60), ("fan", 40, 3), ("blocks", 200, 12)],
+            "thorough": [("mixed", 9000, 16), ("wide", 800, 90), ("fan", 600, 3), ("blocks", 3000, 14), ("deep", 1500, 24)]}
 
 
 def make_cfg(over):
@@ -269,7 +269,31 @@ class ProgGen:
         return {"op": "block", "h": h, "ty": r.choice(self.aty), "body": body, "raise": rs, "catch": catch,
                 "esc": (rs or inner_escapes) and not catch, "c": r.random() < 0.7}
 
+    def fan(self):
+        """One action with 20-35 direct children (messages and short child actions): positions with two digits."""
+        r = self.r
+        ops = [{"op": "task", "h": 1, "ty": "A", "c": True}]
+        top = 1
+        self.nh = 1
+        if r.random() < 0.5:                            # ... or one level down
+            ops.append({"op": "child", "h": 2, "p": 1, "ty": r.choice(self.aty), "c": True})
+            top, self.nh = 2, 2
+        for _ in range(r.randint(20, 35)):
+            if r.random() < 0.3:
+                h = self.h()
+                ops.append({"op": "child", "h": h, "p": top, "ty": r.choice(self.aty), "c": True})
+                for _ in range(r.randint(0, 2)):
+                    ops.append({"op": "log", "h": h, "ty": r.choice(self.mty), "how": "alog", "c": True})
+                ops.append({"op": "finish", "h": h, "ok": r.random() < 0.6, "how": r.choice(["finish", "with"]), "c": True})
+            else:
+                ops.append({"op": "log", "h": top, "ty": r.choice(self.mty), "how": r.choice(["alog", "ctx"]), "c": True})
+        for h in range(top, 0, -1):
+            ops.append({"op": "finish", "h": h, "ok": r.random() < 0.6, "how": "finish", "c": True})
+        return ops
+
     def program(self):
+        if self.kind == "fan":
+            return self.fan()
         ops = []
         while self.budget > 0:
             ops.append(self.op(0))
@@ -396,6 +420,7 @@ def run(prop, tier):
         rep.cov["captured_lists_outside_domain"] = ood
         rep.cov["max_position_in_program_lists"] = max([max(m["lv"]) for o in pobs for m in o["S"]] or [0])
         rep.cov["program_lists_with_late_remote"] = sum(1 for o in pobs if _late_remote(o["S"]))
+        rep.cov["program_lists_with_confusable_neighbours"] = sum(1 for o in pobs if _confusable(o["S"]))
         if ood > len(progs) // 20:
             raise MachineryFailure("%d of %d program captures are not well-formed lists" % (ood, len(progs)))
         for p in preds[:1] + [p for p in preds if p["cfg"] != "hand"][-1:]:
@@ -422,6 +447,15 @@ def _late_remote(S):
             if u == u2 and lv and lv2 and lv[:-1] == lv2[:-1] and lv[-1] < lv2[-1] and i > j:
                 return True
     return False
+
+
+def _confusable(S):
+    """Two finished sibling actions whose positions read alike as text (2 and 20..29, ...)."""
+    acts = {}
+    for m in S:
+        if m["k"] == "end":
+            acts.setdefault((m["u"], tuple(m["lv"][:-2])), set()).add(m["lv"][-2] if len(m["lv"]) > 1 else 0)
+    return any(a != b and str(b).startswith(str(a)) for ps in acts.values() for a in ps for b in ps)
 
 
 def replay(prop, obj, path):
